@@ -183,6 +183,9 @@ func (w *gzipResponseWriter) Flush() {
 	if !w.minLengthExceeded {
 		// Enforce compression because we will not know how much more data will come
 		w.minLengthExceeded = true
+		// The gzip stream is started here even when nothing has been written yet. It is part of the body now and
+		// has to be finished properly (and its Content-Encoding header kept) when the handler returns.
+		w.wroteBody = true
 		w.Header().Set(echo.HeaderContentEncoding, gzipScheme) // Issue #806
 		if w.wroteHeader {
 			w.ResponseWriter.WriteHeader(w.code)
